@@ -4,7 +4,8 @@ LEAN_MODULES = ["CifModel.Props.C07"]
 REQUIRED = ["CifModel.C07_serialize_roundtrip", "CifModel.C07_serialize_buffer", "CifModel.C07_buf_write_terminates",
             "CifModel.C07_buf_write_ok", "CifModel.C07_default_cap_ok", "CifModel.C07_columns_roundtrip",
             "CifModel.C07_schema_link", "CifModel.C07_numb_in_list", "CifModel.C07_numb_produced_consistent",
-            "CifModel.C07_constructible_roundtrip", "CifModel.C07_numb_in_list_partial", "CifModel.C07_numb_list_roundtrip",
+            "CifModel.C07_constructible_roundtrip", "CifModel.C07_store_read", "CifModel.C07_store_read_loop_routes",
+            "CifModel.C07_store_read_delivers_cells", "CifModel.C07_numb_in_list_partial", "CifModel.C07_numb_list_roundtrip",
             "CifModel.C07_cex_buf_write_pinned", "CifModel.C07_cex_buf_write_cap1", "CifModel.C07_cex_empty_digits"]
 GEN = ["ErrCodes", "ValueCols"]
 FAMILIES = ["ser", "storeval"]
@@ -23,8 +24,10 @@ ASSUMPTIONS = [
     "the double cif_value_get_number computes for column `val` is never a NaN (SQLite would store NULL and the CHECK constraint "
     "would refuse the row); observed for huge / tiny exponents by family storeval",
     "values are smaller than the address space (serialised size < 2^64 bytes) — hypothesis of C07_serialize_buffer / wfValue",
-    "the store composes SET_VALUE_PROPS and GET_VALUE_PROPS on the same row (property C04's refinement); here each of the five "
-    "routes is exercised end to end by family storeval",
+    "C07_store_read is stated over group gF's store model (Model/Store.lean, Model/PktItr.lean), which keeps a value V per "
+    "(container, item, row): that this is what SET_VALUE_PROPS + SQLite + GET_VALUE_PROPS amount to is C07_columns_roundtrip; that "
+    "the store model follows container.c / loop.c / pktitr.c is property C04's correspondence; each of the five routes is also "
+    "exercised end to end by family storeval",
 ]
 PARTIAL = [
     "independence of the stored copy from the caller's object: immediate in the model (values are immutable); at the C level "
